@@ -27,6 +27,7 @@ import torch
 import inferno
 import inferno.learn as L
 from inferno.extra import ExactNeuron
+import inferno.functional as F
 from inferno.functional import exp_stdp_post_kernel, exp_stdp_pre_kernel
 from inferno.neural import DeltaCurrent, LinearDense, LinearDirect, Serial
 
@@ -46,6 +47,8 @@ SPEC = {
         "routing tables, their match subjects and the clamp splits in Model/Split.lean are hand-written AND proved equal (Props/C09Glue.lean) to Gen/Routes.lean, which harness/sites.py regenerates on every run from the match statements / updater assignments inside each trainer's forward; how the routed magnitudes are computed (einsum, batch reduction, per-sample partition) is tied by differential execution only",
         "theorems over the reals; comparison in float64 to 1e-12 relative",
         "homeostasis: the FULL statement (depressive part >= 0, net = k) is false for the code (known finding D9, key C09:homeostasis:neg-part-sign); proved: the potentiating half and the negation witness",
+        "bounded updates: the accumulator is configured with the library's multiplicative / power (exponent 2) half and full bounding functions; the expected applied change upper(pos) - lower(neg) is a closed form written in the check ((ub - w)^k * pos - (w - lb)^k * neg), compared in float64 to 1e-12 relative; other bounding functions (scaled, sharp) are not exercised",
+        "sign-insensitive hyperparameters (TripletSTDP's triplet rates): checked by a twin cell registered with the absolute values and by the non-negativity of the parts; the magnitudes themselves are still recomputed from the trainer's monitors",
         "layers: LinearDense(3->2) and LinearDirect(3), receptive axis of length 1; batch sizes 1..3; device CPU",
     ],
 }
@@ -322,7 +325,8 @@ def override_kwargs(cfg):
     if f in ("STDP", "MSTDP", "MSTDPET"):
         return {"lr_post": a, "lr_pre": c}
     if f == "TripletSTDP":
-        return {"lr_post_pair": a, "lr_pre_pair": c}
+        # the triplet rates can be overridden per cell as well; their sign is documented not to matter (|.| is taken)
+        return {"lr_post_pair": a, "lr_pre_pair": c, "lr_post_triplet": cfg["lr_a3"], "lr_pre_triplet": cfg["lr_b3"]}
     if f in ("DelayAdjustedSTDP", "DelayAdjustedMSTDP"):
         return {"lr_pos": a, "lr_neg": c}
     if f in ("DelayAdjustedSTDPD", "DelayAdjustedMSTDPD"):
@@ -341,7 +345,53 @@ def cell_cfgs(cfg):
     out = [dict(cfg, cell="default")]
     if cfg.get("override"):
         out.append(dict(cfg, cell="override", **cfg["override"]))
+        if cfg.get("abs_twin"):
+            # a third cell registered with the ABSOLUTE VALUES of the sign-insensitive overrides (`abs_twin` names them):
+            # it must be handed exactly the parts of the second cell
+            ov = dict(cfg["override"])
+            for k in cfg["abs_twin"]:
+                ov[k] = abs(ov[k])
+            out.append(dict(cfg, cell="override-abs", **ov))
     return out
+
+
+# ---------------------------------------------------------------------------------------------
+# bounding configured on the accumulator of the trained parameter: `bound` = {mode, fn, ub, lb}
+#   mode half-both / half-upper / half-lower: `upperbound(...)` and / or `lowerbound(...)`; full: `fullbound(...)`
+#   fn   mult: (ub - w) * pos, (w - lb) * neg;  pow2: (ub - w)^2 * pos, (w - lb)^2 * neg
+
+BOUND_MODES = ["half-both", "half-upper", "half-lower", "full"]
+
+
+def configure_bound(acc, bd):
+    mode, fn, ub, lb = bd["mode"], bd["fn"], bd["ub"], bd["lb"]
+    if mode == "full":
+        if fn == "mult":
+            acc.fullbound(F.bound_multiplicative, ub, lb)
+        else:
+            acc.fullbound(F.bound_power, ub, lb, upper_power=2.0, lower_power=2.0)
+        return
+    if mode in ("half-both", "half-upper"):
+        if fn == "mult":
+            acc.upperbound(F.bound_upper_multiplicative, ub)
+        else:
+            acc.upperbound(F.bound_upper_power, ub, power=2.0)
+    if mode in ("half-both", "half-lower"):
+        if fn == "mult":
+            acc.lowerbound(F.bound_lower_multiplicative, lb)
+        else:
+            acc.lowerbound(F.bound_lower_power, lb, power=2.0)
+
+
+def bounded_change(bd, w, pos, neg):
+    """closed form of the applied change: potentiation scaled by the UPPER-bound function minus depression scaled by the
+    LOWER-bound function (a side with no bound configured is taken as it is)"""
+    if bd is None:
+        return pos - neg
+    k = 1 if bd["fn"] == "mult" else 2
+    up = ((bd["ub"] - w) ** k) * pos if bd["mode"] in ("half-both", "half-upper", "full") else pos
+    lo = ((w - bd["lb"]) ** k) * neg if bd["mode"] in ("half-both", "half-lower", "full") else neg
+    return up - lo
 
 
 def run_case(cfg):
@@ -354,8 +404,17 @@ def run_case(cfg):
         layer = make_layer(kind, B)
         if cfg.get("delays"):
             layer.connection.delay = torch.tensor(cfg["delays"], dtype=torch.float64).reshape(layer.connection.delay.shape)
-        kw = override_kwargs(ccfg) if ccfg["cell"] == "override" else {}
-        unit = trainer.register_cell(ccfg["cell"], layer.cell, **kw)
+        kw = override_kwargs(ccfg) if ccfg["cell"] != "default" else {}
+        if cfg.get("param_init"):
+            cur = getattr(layer.connection, pname)
+            setattr(layer.connection, pname,
+                    torch.tensor(cfg["param_init"][: cur.numel()], dtype=torch.float64).reshape(cur.shape))
+        if cfg.get("bound"):
+            configure_bound(getattr(layer.connection.updater, pname), cfg["bound"])
+        try:
+            unit = trainer.register_cell(ccfg["cell"], layer.cell, **kw)
+        except Exception as e:
+            raise TrainerRaised(f"register_cell({', '.join(f'{k}={v}' for k, v in kw.items())}) raised {type(e).__name__}: {e}") from e
         cells.append((ccfg, layer, unit))
     recs = []
     for step, (pre, post) in enumerate(cfg["history"]):
@@ -373,7 +432,7 @@ def run_case(cfg):
             else:
                 trainer()
         except Exception as e:
-            raise TrainerRaised(f"{type(e).__name__}: {e}") from e
+            raise TrainerRaised(f"forward raised {type(e).__name__}: {e}") from e
         for ccfg, layer, unit in cells:
             line = request_line(ccfg, layer, unit, signal)
             acc = getattr(layer.connection.updater, pname)
@@ -385,7 +444,11 @@ def run_case(cfg):
             if cfg.get("apply"):
                 # no bounding configured: `update()` must change the parameter by exactly pos - neg
                 old = getattr(layer.connection, pname).detach().clone()
-                layer.connection.update()
+                try:
+                    layer.connection.update()
+                except Exception as e:
+                    raise TrainerRaised(f"connection.update() after step {step} raised {type(e).__name__}: {e}") from e
+                rec["old"] = old
                 rec["delta"] = getattr(layer.connection, pname).detach() - old
                 pp = acc_shape
                 rec["part_shape"] = tuple(pp) if pp is not None else tuple(old.shape)
@@ -495,6 +558,80 @@ def override_cases(rng):
     return out
 
 
+def triplet_rate_cases(rng):
+    """TripletSTDP with triplet rates of EITHER sign, given to the constructor and / or as per-cell overrides
+    (only their absolute value may matter), small and large relative to the pair rates (|beta / alpha| from 1/8 to 32);
+    histories dense enough that a spike follows an earlier spike of the same side by two steps or more (slow trace
+    non-zero); the overriding cell has an absolute-value twin which must be handed identical parts"""
+    out = []
+    mags = [4.0, 2.0, 0.125, 0.5]
+    for i, ((sa, sb), (ta, tb), (ca, cb)) in enumerate(
+            [((1, -1), (-1, -1), (1, 1)), ((1, -1), (-1, 1), (1, 1)), ((-1, 1), (1, -1), (1, 1)), ((1, 1), (-1, -1), (-1, -1)),
+             ((-1, -1), (-1, -1), (1, -1)), ((1, -1), (1, 1), (-1, -1)), ((-1, 1), (-1, -1), (-1, 1)), ((1, -1), (-1, -1), (1, 1))]):
+        cfg = base_cfg(rng, "TripletSTDP", sa, sb)
+        big = i % 2 == 0
+        cfg.update(lr_a3=ca * rng.choice([0.25, 0.5, 2.0]), lr_b3=cb * rng.choice([0.25, 0.125, 2.0]),
+                   stream="triplet-rate-sign", abs_twin=["lr_a3", "lr_b3"])
+        cfg["override"] = {"lr_a": cfg["lr_a"], "lr_b": cfg["lr_b"],
+                           "lr_a3": ta * (4.0 if big else rng.choice(mags)), "lr_b3": tb * (4.0 if big else rng.choice(mags))}
+        if i >= 6:      # the pair rates are overridden as well (another sign mode)
+            oa, ob = rng.choice([m for m in SIGNS if m != (sa, sb)])
+            cfg["override"].update(lr_a=oa * rng.choice([0.5, 0.25]), lr_b=ob * rng.choice([0.5, 0.125]))
+        cfg["history"] = rand_history(rng, cfg["B"], cfg["layer"], 8, p=0.5)
+        out.append(cfg)
+    return out
+
+
+def bounded_cases(rng):
+    """every rule whose parameter update is applied, in all four sign modes (three-factor rules: scalar reward of both signs,
+    all-negative and mixed reward tensors), with BOUNDING configured on the accumulator of the trained parameter: half bounds
+    (upper and lower, upper only, lower only) or a full bound, multiplicative or power-2 dependence, limits around seeded
+    parameter values (many close to the lower limit); connection.update() after every step; the applied change is compared
+    with the closed form upper(potentiating part) - lower(depressing part) - steps handing only one part included"""
+    out = []
+    off = rng.randrange(4)
+    fams = [f for f in FAMILIES if not f.endswith("STDPD")]
+
+    def bound_of(i):
+        ub, lb = rng.choice([(1.0, 0.0), (2.0, -1.0), (0.5, -0.5)])
+        return {"mode": BOUND_MODES[(i + off) % 4], "fn": rng.choice(["mult", "mult", "pow2"]), "ub": ub, "lb": lb}
+
+    def finish(cfg, i):
+        bd = bound_of(i)
+        cfg.update(apply=True, bound=bd, delayed=False,
+                   param_init=[bd["lb"] + (bd["ub"] - bd["lb"]) * rng.choice([1, 1, 2, 2, 3, 4, 8, 12, 15]) / 16 for _ in range(6)])
+        if not cfg["family"].startswith("DelayAdjusted"):
+            cfg.pop("delays", None)
+        out.append(cfg)
+
+    for fi, family in enumerate(fams):
+        if family == "LinearHomeostasis":
+            for pi, param in enumerate(("weight", "bias")):
+                for si, sa in enumerate((1, -1)):
+                    cfg = base_cfg(rng, family, sa, 1)
+                    above = rng.random() < 0.5
+                    cfg.update(param=param, lr_a=sa * rng.choice([0.125, 0.25]), target=(0.9 if above else 0.05),
+                               red=rng.choice(["mean", "sum", "amax"]), stream="bounded")
+                    cfg["history"] = rand_history(rng, cfg["B"], cfg["layer"], 5, p=(0.15 if above else 0.7))
+                    finish(cfg, fi + 2 * pi + si)
+            continue
+        for gi, (sa, sb) in enumerate(SIGNS):
+            variants = ([("scalar", 1), ("scalar", -1), ("tensor", -1), ("tensor", 0)] if family in THREE_FACTOR else [(None, 0)])
+            for vi, (sk, ssign) in enumerate(variants):
+                cfg = base_cfg(rng, family, sa, sb)
+                if sk == "scalar":
+                    cfg.update(signal_kind=sk, signal=[ssign * rng.choice([1.0, 0.5, 2.0])] * 3)
+                elif sk == "tensor":
+                    cfg.update(signal_kind=sk, signal=[(-rng.choice([1.0, 0.5, 2.0]) if ssign < 0 else rng.choice([1.0, -1.0, 0.5, -2.0]))
+                                                       for _ in range(3)])
+                if family in THREE_FACTOR:
+                    cfg["scale"] = rng.choice([1.0, 0.5, 2.0, -1.0])
+                cfg["history"] = rand_history(rng, cfg["B"], cfg["layer"], 5, p=0.45)
+                cfg["stream"] = "bounded"
+                finish(cfg, fi + gi + vi)
+    return out
+
+
 def multistep_cases(rng):
     """histories over which what is handed as depression CHANGES from step to step while the
     parameter is updated (applied + cleared) in between: single-sign three-factor rules whose reward
@@ -587,14 +724,33 @@ def is_d9(rec, dm, ds):
         return False
 
 
-def expected_delta(dm, like):
-    """pos - neg of the Lean-routed parts (`None` contributes nothing)"""
+def routed_parts(dm, dtype):
+    """(pos, neg) of the Lean-routed parts as flat tensors (`None` stays `None`)"""
     vals = []
-    for kv in dm.split():
+    for kv in dm.split()[:2]:
         v = kv.split("=", 1)[1]
-        vals.append(None if v == "None" else torch.tensor([hex2f(x) for x in v.split(",")], dtype=like.dtype))
-    z = torch.zeros_like(next(v for v in vals if v is not None))
-    return (vals[0] if vals[0] is not None else z) - (vals[1] if vals[1] is not None else z)
+        vals.append(None if v == "None" else torch.tensor([hex2f(x) for x in v.split(",")], dtype=dtype))
+    return vals[0], vals[1]
+
+
+def applied_mismatch(cfg, rec, dm):
+    """None, or the finding triple when the change applied by `update()` is not upper(pos) - lower(neg) of the routed parts
+    (`pos - neg` with no bounding configured)"""
+    bd = cfg.get("bound")
+    rp, rn = routed_parts(dm, rec["delta"].dtype)
+    z = torch.zeros_like(rec["delta"])
+    pp = rp.reshape(rec["part_shape"]).expand(rec["delta"].shape) if rp is not None else z
+    nn_ = rn.reshape(rec["part_shape"]).expand(rec["delta"].shape) if rn is not None else z
+    want = bounded_change(bd, rec["old"], pp, nn_)
+    if bool(((rec["delta"] - want).abs() <= TOL * torch.maximum(torch.ones_like(want), want.abs())).all()):
+        return None
+    how = ("no bounding" if bd is None else
+           f"bounding {bd['mode']} / {bd['fn']} (upper limit {bd['ub']}, lower limit {bd['lb']}) on {target_param(cfg)} = {rec['old'].tolist()}")
+    rule = ("potentiation minus depression" if bd is None else
+            "upper-bound function of the potentiating part minus lower-bound function of the depressing part")
+    return ("spec", f"C09:applied:{fam_key(cfg)}" + ("" if bd is None else ":bounded"),
+            f"{cfg['family']} step {rec['step']} (cell {rec['cell']}): update() with {how} changed {target_param(cfg)} by {rec['delta'].tolist()}, "
+            f"{rule} of the parts of this step (`{dm}`) is {want.tolist()}")
 
 
 def split_resp(resp):
@@ -616,13 +772,14 @@ def explore(ctx) -> Exploration:
     torch.set_default_dtype(torch.float64)
     try:
         cases = cases_for(rng, thorough) + direction_cases(rng) + override_cases(rng) + multistep_cases(rng) + scale_twin_cases(rng)
+        cases += triplet_rate_cases(rng) + bounded_cases(rng)
         runs = []
         for cfg in cases:
             try:
                 recs = run_case(cfg)
             except TrainerRaised as e:
                 ex.findings.append(Finding(kind="spec", key=f"C09:raises:{fam_key(cfg)}",
-                                           what=f"{cfg['family']}.forward raised {e}", case={"config": slim(cfg)}))
+                                           what=f"{cfg['family']}: {e}", case={"config": slim(cfg)}))
                 recs = []
             runs.append(recs)
     finally:
@@ -633,7 +790,8 @@ def explore(ctx) -> Exploration:
     seen_keys = {}
     prev_recs = None
     for cfg, recs in zip(cases, runs):
-        ex.count("cells", "default+override" if cfg.get("override") else "default")
+        ex.count("cells", ("default+override+|override|" if cfg.get("abs_twin") else "default+override") if cfg.get("override") else "default")
+        ex.count("bounding", f"{cfg['bound']['mode']}:{cfg['bound']['fn']}" if cfg.get("bound") else "none")
         ex.count("clearing", "update() applied" if cfg.get("apply") else "del updater.<param>")
         if cfg["family"] in THREE_FACTOR:
             ex.count("scale", "negative" if cfg["scale"] < 0 else ("zero" if cfg["scale"] == 0 else "positive"))
@@ -670,12 +828,13 @@ def explore(ctx) -> Exploration:
                 bad = ("model", f"C09:model:{fam_key(cfg)}",
                        f"{cfg['family']} step {rec['step']}: real parts `{rec['m']}`, Lean routing `{dm}`")
             if bad is None and "delta" in rec:
-                want = expected_delta(dm, rec["delta"].reshape(-1)[: 1]).reshape(rec["part_shape"]).expand(rec["delta"].shape) \
-                    if "None" not in dm.split()[0] or "None" not in dm.split()[1] else torch.zeros_like(rec["delta"])
-                if not bool(((rec["delta"] - want).abs() <= TOL * torch.maximum(torch.ones_like(want), want.abs())).all()):
-                    bad = ("spec", f"C09:applied:{fam_key(cfg)}",
-                           f"{cfg['family']} step {rec['step']} (cell {rec['cell']}): update() with no bounding changed {target_param(cfg)} by {rec['delta'].tolist()}, "
-                           f"potentiation minus depression of the parts of this step is {want.tolist()}")
+                bd = cfg.get("bound")
+                rp, rn = routed_parts(dm, rec["delta"].dtype)
+                bad = applied_mismatch(cfg, rec, dm)
+                if bd is not None:
+                    ex.count("bounded_update_checks", f"{bd['mode']}:{bd['fn']}:" + ("pos+neg" if rp is not None and rn is not None else
+                                                                                  "pos only" if rp is not None else
+                                                                                  "neg only" if rn is not None else "nothing"))
                 ex.count("applied_change_checks", cfg["stream"])
             if bad and seen_keys.get(bad[1], 0) < 3:
                 seen_keys[bad[1]] = seen_keys.get(bad[1], 0) + 1
@@ -692,6 +851,21 @@ def explore(ctx) -> Exploration:
                                                case={"config": slim(cfg), "step": rb["step"]}))
                     break
         prev_recs = recs
+        # a cell registered with sign-insensitive overrides must be handed the parts of its absolute-value twin
+        if cfg.get("abs_twin"):
+            ex.count("abs_twins", cfg["family"])
+            by = {(r["cell"], r["step"]): r for r in recs}
+            for (cell, step), ra in sorted(by.items()):
+                rb = by.get(("override-abs", step))
+                if cell != "override" or rb is None:
+                    continue
+                if not view_close(ra["m"], rb["m"]):
+                    ov = {k: cfg["override"][k] for k in cfg["abs_twin"]}
+                    ex.findings.append(Finding(kind="spec", key=f"C09:abs-twin:{cfg['family']}",
+                                               what=f"{cfg['family']} step {step}: the cell registered with per-cell {ov} is handed `{ra['m']}`, the cell registered "
+                                                    f"with their absolute values is handed `{rb['m']}` (the absolute value of these rates is documented to be taken)",
+                                               case={"config": slim(cfg), "step": step}))
+                    break
         # direction on the real accumulators (independent of the driver)
         if cfg["stream"].startswith(("causal", "anti-causal")) and nets:
             tot = torch.stack(nets, 0)
@@ -716,6 +890,10 @@ def explore(ctx) -> Exploration:
                "plus two-cell trainers whose second cell is registered with per-cell rates of a different sign mode; multi-step histories in which "
                "the reward changes sign (-,-,+,+,-,+) with connection.update() between the steps, the applied change of every step compared with "
                "pos - neg of that step; three-factor rules with negative and zero `scale` and +g / -g twins that must hand identical parts; "
+               "TripletSTDP with triplet rates of either sign at the constructor and as per-cell overrides (|beta/alpha| 1/8..32), the overriding cell "
+               "next to a cell registered with the absolute values, which must be handed identical parts; every applied rule in all sign modes / reward "
+               "signs with half bounds (both, upper only, lower only) or a full bound (multiplicative / power 2) on the accumulator and seeded parameter "
+               "values, the applied change of every step compared with upper(potentiation) - lower(depression), steps handing a single part included; "
                "a call is non-trivial when some part is non-zero; distinct = distinct driver request")
     ex.samples = [{"config": {k: v for k, v in cases[0].items() if k != "history"}, "request": runs[0][-1]["line"] if runs[0] else None},
                   {"config": {k: v for k, v in cases[-1].items() if k != "history"}}]
@@ -745,6 +923,18 @@ def replay(ctx, data) -> int:
     for rec, r in zip(recs, resp):
         dm, ds = split_resp(r)
         ok = view_close(rec["s"], ds) and view_close(rec["m"], dm)
-        print(f"step {rec['step']}: {rec['line'][:160]}\n    real: M {rec['m']} || S {rec['s']}\n    lean: {r}\n    {'agrees' if ok else 'DISAGREEMENT'}")
+        print(f"step {rec['step']} cell {rec['cell']}: {rec['line'][:160]}\n    real: M {rec['m']} || S {rec['s']}\n    lean: {r}\n    {'agrees' if ok else 'DISAGREEMENT'}")
+        if ok and "delta" in rec:
+            am = applied_mismatch(cfg, rec, dm)
+            if am:
+                print("    APPLIED CHANGE DISAGREES: " + am[2])
+                ok = False
         rc = rc or (0 if ok else 1)
+    if cfg.get("abs_twin"):
+        by = {(r["cell"], r["step"]): r for r in recs}
+        for (cell, step), ra in sorted(by.items()):
+            rb = by.get(("override-abs", step))
+            if cell == "override" and rb is not None and not view_close(ra["m"], rb["m"]):
+                print(f"step {step}: cell with overrides {cfg['override']} handed `{ra['m']}`, its absolute-value twin `{rb['m']}`: DISAGREEMENT")
+                rc = 1
     return rc
